@@ -1,0 +1,10 @@
+//go:build verif
+
+// Contracts for package smobserver, checked by /verif/govc (see /verif/DESIGN.md). Comments only.
+package smobserver
+
+//@ // C14: malformed events are logged and skipped; every event handed on was decoded without error
+//@ func makeEvents
+//@   ensures len(ret0) <= len(events) && (forall i :: 0 <= i && i < len(ret0) ==> ret0[i] != nil)
+//@   invariant len(res) <= rangeindex + 1
+//@   invariant forall i :: 0 <= i && i < len(res) ==> res[i] != nil
